@@ -32,12 +32,13 @@ def dec(units):
     return s if s else '0'
 
 
-def eta_str(e):
+def eta_str(e, spelling=0):
+    """A bias ratio as a user may type it: inf / Inf / infinity, 3 / 3.0."""
     a, b = e
     if b == 0:
-        return 'inf'
+        return ('inf', 'Inf', 'infinity', 'inf')[spelling % 4]
     if a % b == 0:
-        return str(a // b)
+        return str(a // b) + ('.0' if spelling % 4 == 2 else '')
     return repr(a / b)
 
 
@@ -46,7 +47,8 @@ def cli_args(a, d):
     args = ['generate-input', '-d', d,
             '-s', ','.join('x'.join(str(x) for x in s) for s in a['sizes']),
             '--decoder_class', v['decoder'], '--bias', a['bias'],
-            '--eta', ','.join(eta_str(e) for e in a['etas']),
+            '--eta', ','.join(eta_str(e, len(a['sizes']) + len(a['etas']) + len(a['label']) + j)
+                              for j, e in enumerate(a['etas'])),
             '--code_class', v['code'], '--noise_class', 'PauliErrorModel',
             '-m', v['method']]
     p = a['prob']
